@@ -12,6 +12,7 @@ from ..harness import (Explorer, make_belief_base, make_epistemic_state, make_qu
                        truth_rows, KEYS_D, returned_bool, P_value, PVAR, layer_fam, LEN_P, LAST, K, reccall_summary,
                        lin_facts_hold, eval_lin_n, eval_pred, pred_atoms, query_formula)
 from . import wrappers
+from .. import depth as _depth
 
 HEAD = ("sym", "H")
 
@@ -174,7 +175,7 @@ def rec(rep, ex: Explorer, cls: str):
             node = back[-1].node if back else None
             n_idx = snapd.get(idx_name)
             ok_idx = n_idx is not None and n_idx[0] == "val" and isinstance(n_idx[1], LinV) and n_idx[1].lin == F.lin_add(Kx, F.lin_const(-1))
-            for v, f, kv in product((True, False), (True, False), range(0, 3)):
+            for v, f, kv in product((True, False), (True, False), _depth.card_range()):
                 if env["v"] not in (None, v) or env["f"] not in (None, f):
                     continue
                 okk = True
@@ -212,7 +213,7 @@ def rec(rep, ex: Explorer, cls: str):
             out = "REC" if (r_t, r_f) == (True, False) else ("T" if r_t and r_f else ("F" if not r_t and not r_f else "NOT-REC"))
         else:
             out = "T" if eval_pred(pr, envp) else "F"
-        for v, f, kv in product((True, False), (True, False), range(0, 3)):
+        for v, f, kv in product((True, False), (True, False), _depth.card_range()):
             if env["v"] is not None and env["v"] != v:
                 continue
             if env["f"] is not None and env["f"] != f:
